@@ -404,6 +404,15 @@ def gen_b(seed, A):
                     doc_refs.append((f"[[{e.name}]]", e))
                 elif e.kind != "absinterface":
                     doc_refs.append((f"[[{e.module}:{e.name}]]", e))
+        # a generic interface whose body brings a type of A in by its own USE statement (the module itself does not import that type)
+        outside = [e for e in a_pub if e.kind == "type" and not hasattr(e, "alias_of") and all(v is not e for v in visible.values()) and e.name.lower() not in own
+                   and e.name.lower() not in visible and (local_clash_mod is None or e.module != local_clash_mod.name) and count.get(e.name.lower(), 0) == 1]
+        if outside and rng.random() < 0.5:
+            e = rng.choice(outside)
+            t = T()
+            decl += [f"interface bgen_{bi}", f"!! doc {t}", f"subroutine bext_{bi}(x)", f"use {e.module}, only: {e.name}", f"type({e.name}) :: x", f"end subroutine bext_{bi}", "end interface"]
+            ents.append(Ent("B", bname, "interface", f"bgen_{bi}", "public", t))
+            refs.append({"src": t, "via": "dummy_type_in_generic_interface_body", "text": e.name, "target": e})
         for name, oe in own.items():
             doc_refs.append((f"[[{oe.name}]]", oe))
             # a call to the own procedure
@@ -647,6 +656,9 @@ def case(arg):
                 cfg["corrupt_modules_json"] = junk[:12].decode("latin-1")
             externals = {"a_broken": bad, "projA": ext}
         b_opts = {"project": "ProjB", "graph": graph, "proc_internals": True, "external": externals}
+        if graph and rng.random() < 0.35:
+            b_opts["graph_maxnodes"] = rng.choice([1, 2])  # graphs whose first hop is larger are shown as tables of links
+            cfg["graph_maxnodes"] = b_opts["graph_maxnodes"]
         write_proj(b_root, B["files"], b_opts)
         # FORD may be started from anywhere: a relative `external` location is relative to B's project file
         start = rng.choice(["project_dir", "project_dir", "parent_dir", "unrelated_dir"])
@@ -684,6 +696,11 @@ def case(arg):
                         viol.append({"kf": {"kind": "external_link_fragment_missing", "mode": mode}, "w": {**w0, "page": page, "url": url, "text": text}})
                 elif where == "other":
                     viol.append({"kf": {"kind": "link_to_neither_project", "mode": mode}, "w": {**w0, "page": page, "url": url, "text": text}})
+                elif where == "B" and rel.endswith(".html") and not os.path.isfile(os.path.join(b_out, rel)):
+                    # (a link into A that was made relative to B's page, for instance)
+                    kf_ = {"kind": "link_inside_own_output_missing", "mode": mode, "looks_like_external_location": ("http:" in url or os.path.basename(a_out.rstrip("/")) + "/" in url and "pa/" in url)}
+                    if not any(v_["kf"] == kf_ for v_ in viol):
+                        viol.append({"kf": kf_, "w": {**w0, "page": page, "url": url, "text": text}})
         # ---- expected references
         n_refs = 0
         vias = set()
@@ -763,7 +780,7 @@ def case(arg):
                         break
         # ---- project-wide graphs (list pages): an entity of A that B uses and B's own entity of the same name and kind are two nodes, each
         #      leading to its own page
-        if graph:
+        if graph and "graph_maxnodes" not in b_opts:  # (with a node limit the project-wide graphs are cut short or replaced by a notice)
             for r in B["refs"]:
                 if r["via"] not in ("call", "extends", "component_type") or r["target"].proj != "A" or not r["target"].tracer:
                     continue
